@@ -5,6 +5,7 @@ CONSTANTS
   Nobody = Nobody
   Ids = {"i1", "i2"}
   MaxOps = 2
+  MaxOpsOf <- LimitsAll
   MaxVer = 1
   OpsOf <- RolesQuick
   InitKinds = {"live", "dead"}
